@@ -28,7 +28,7 @@ func init() {
 			return 1280
 		},
 		Batch: func(t string) int { return 32 },
-		Floors: []string{"roundtrips", "mode_encrypted_footer", "mode_plaintext_footer", "keys_footer_only", "keys_per_column", "missing_column_key_checks", "missing_key_column_access_checks", "leak_scans", "markers_searched", "tamper_byte_flips", "tamper_truncations", "tamper_module_swaps", "tamper_swaps_256_apart", "wide_ordinal_files", "encrypted_seeks",
+		Floors: []string{"roundtrips", "mode_encrypted_footer", "mode_plaintext_footer", "keys_footer_only", "keys_per_column", "missing_column_key_checks", "missing_key_column_access_checks", "invalid_column_key_checks", "leak_scans", "markers_searched", "tamper_byte_flips", "tamper_truncations", "tamper_module_swaps", "tamper_swaps_256_apart", "wide_ordinal_files", "encrypted_seeks",
 			"tamper_cross_file_transplants", "tamper_wrong_key", "tamper_signature_stripped", "writer_reuse_after_reset", "write_rowgroup_from_encrypted_source", "envelope_walks", "entry_write_rows", "entry_write_rowgroup_buffer", "entry_write_rowgroup_plain_file", "entry_begin_rowgroup"},
 		Rule: "case = ({encrypted footer, signed plaintext footer} x {footer key only, per-column keys} x v1/v2 x codecs x page index / bloom filters x 1..n row groups x {fresh writer, writer reused through Reset after a file with another number of row groups} x write entry point {typed Write, WriteRows, WriteRowGroup(buffer), WriteRowGroup(plaintext file), BeginRowGroup/Commit}; " +
 			"string values are unique 16-byte high-entropy markers). (a) round trip with the right keys equals the rows written; a reader lacking a column key gets an error for that column, never zeros; (b) no marker of an encrypted column (values or statistics) occurs in the raw bytes; " +
@@ -95,8 +95,50 @@ func walkModules(data []byte, end int) ([][2]int, bool) {
 	return mods, pos == end
 }
 
+// c18InvalidColumnKey: a ColumnKeys entry without a usable key (nil after a failed lookup, empty, wrong size). The writer may
+// refuse - at construction, Write or Close - but what it writes must not hold the column's values in clear.
+func c18InvalidColumnKey(c *Ctx, r *gen.Rand) {
+	rows := c18Rows(r, 20, 'k')
+	bad := [][]byte{nil, {}, r.Bytes(5), r.Bytes(17)}[r.Intn(4)]
+	encFooter := r.Bool()
+	cfg := &parquet.EncryptionConfig{FooterKey: r.Bytes(16), EncryptedFooter: encFooter, ColumnKeys: map[string][]byte{"secret": bad}}
+	c.D("invalid_column_key_bytes", len(bad))
+	c.D("mode", map[bool]string{true: "encrypted_footer", false: "plaintext_footer"}[encFooter])
+	var buf bytes.Buffer
+	refused := ""
+	func() {
+		defer func() {
+			if p := recover(); p != nil {
+				refused = fmt.Sprint("panic: ", p)
+			}
+		}()
+		w := parquet.NewGenericWriter[c18Row](&buf, parquet.WithEncryption(cfg), parquet.Compression(&parquet.Uncompressed))
+		if _, err := w.Write(rows); err != nil {
+			refused = err.Error()
+			return
+		}
+		if err := w.Close(); err != nil {
+			refused = err.Error()
+		}
+	}()
+	for i := range rows {
+		if bytes.Contains(buf.Bytes(), []byte(rows[i].Secret)) {
+			c.Fail("c18.plaintext_leak", map[string]any{"invalid_column_key": true, "key_bytes": len(bad)}, "ColumnKeys[\"secret\"] holds a %d-byte key: the writer reported %q and the value of row %d is in clear in the %d bytes it wrote", len(bad), refused, i, buf.Len())
+			return
+		}
+	}
+	if refused != "" {
+		c.Obs("invalid_column_key_refused", 1)
+	}
+	c.Obs("invalid_column_key_checks", 1)
+}
+
 func runC18(c *Ctx) {
 	r := c.R
+	if c.Case%16 == 11 {
+		c18InvalidColumnKey(c, r)
+		return
+	}
 	n := gen.Pick(r, []int{10, 60, 200})
 	// every eighth case has more than 256 pages per column chunk, or more than 256 row groups:
 	// the ordinals in the AAD of a module are 16-bit values, both bytes of which matter
